@@ -78,17 +78,23 @@ def hasSpace (s : St) (idx : Nat) (size : Nat) : Option Bool :=
   | some cap => some (decide (size ≤ cap))
   | none => none
 
-/-- Loop 1: `for totalBlocksReleased < totalBlocksToBeReleased`. Fuel = the difference. -/
+/-- One iteration of loop 1 (`for totalBlocksReleased < totalBlocksToBeReleased`): pop the oldest
+block and take it out of the bookkeeping. `none` = `PopFront` on an empty list (a Go panic). -/
+def quarantineStep (s : St) : Option St :=
+  match popFront s with
+  | none => none
+  | some s =>
+    some (if s.old > 0 then { s with old := s.old - 1 }
+          else if s.cur > 0 then { s with cur := s.cur - 1 }
+          else resetAlloc { s with new := s.new - 1 })
+
+/-- Loop 1. Fuel = `totalBlocksToBeReleased - totalBlocksReleased`. -/
 def quarantineLoop : Nat → St → Res St
   | 0, s => .ok s
   | n+1, s =>
-    match popFront s with
+    match quarantineStep s with
     | none => .panic
-    | some s =>
-      let s := if s.old > 0 then { s with old := s.old - 1 }
-               else if s.cur > 0 then { s with cur := s.cur - 1 }
-               else resetAlloc { s with new := s.new - 1 }
-      quarantineLoop n s
+    | some s => quarantineLoop n s
 
 /-- Loop 2: `for ShouldGrowNewBlocks(current, new)`. -/
 def growLoop (c : Cfg) : Nat → St → Res St
@@ -100,6 +106,26 @@ def growLoop (c : Cfg) : Nat → St → Res St
       | some s => growLoop c fuel { s with new := s.new + 1 }
     else .ok s
 
+/-- Body of loop 3 when the first "new" block has no room for the blob. -/
+def rotateStep (c : Cfg) (s : St) : Res St :=
+  if s.new > c.desiredNew then
+    .ok (resetAlloc { s with cur := s.cur + 1, new := s.new - 1 })
+  else
+    match pushBack c s with
+    | none => .err "unavailable" s
+    | some s =>
+      if c.policy.growCur s.cur then
+        .ok (resetAlloc { s with cur := s.cur + 1 })
+      else
+        let s := { s with old := s.old + 1 }
+        if s.old > c.desiredOld then
+          match popFront s with
+          | none => .panic
+          | some s =>
+            -- removeOldestOldBlock; increaseTotalBlocksToBeReleased(totalBlocksReleased)
+            .ok (resetAlloc { s with old := s.old - 1, toBeReleased := max s.toBeReleased s.released })
+        else .ok (resetAlloc s)
+
 /-- Loop 3: `for !HasSpace(len(old)+current, size)`. -/
 def rotateLoop (c : Cfg) (size : Nat) : Nat → St → Res St
   | 0, _ => .stuck
@@ -108,25 +134,9 @@ def rotateLoop (c : Cfg) (size : Nat) : Nat → St → Res St
     | none => .panic
     | some true => .ok s
     | some false =>
-      if s.new > c.desiredNew then
-        rotateLoop c size fuel (resetAlloc { s with cur := s.cur + 1, new := s.new - 1 })
-      else
-        match pushBack c s with
-        | none => .err "unavailable" s
-        | some s =>
-          if c.policy.growCur s.cur then
-            rotateLoop c size fuel (resetAlloc { s with cur := s.cur + 1 })
-          else
-            let s := { s with old := s.old + 1 }
-            if s.old > c.desiredOld then
-              match popFront s with
-              | none => .panic
-              | some s =>
-                let s := { s with old := s.old - 1 }
-                -- increaseTotalBlocksToBeReleased(totalBlocksReleased)
-                let s := { s with toBeReleased := max s.toBeReleased s.released }
-                rotateLoop c size fuel (resetAlloc s)
-            else rotateLoop c size fuel (resetAlloc s)
+      match rotateStep c s with
+      | .ok s => rotateLoop c size fuel s
+      | r => r
 
 /-- `incrementAllocationBlockIndex`. `none` = division by zero (`% newBlocks` with no new blocks). -/
 def incrementAlloc (c : Cfg) (s : St) : Option St :=
